@@ -291,9 +291,40 @@ def max_age_seconds(m):
     return td.days * 86400 + td.seconds
 
 
+RESP_CONFIGS = [None, {"charset": "utf-8"}, {"charset": "latin-1"}, {"charset": "iso-8859-15"}, {"charset": "utf-16"},
+                {"set_charset": "utf-16"}, {"set_charset": "latin-1"}, {"set_charset": "cp1252"},
+                {"content_type": "application/json"}, {"content_type": "image/png"},
+                {"content_type": "text/html", "charset": "koi8-r"},
+                {"subclass_default_charset": "iso-8859-1"}, {"subclass_default_charset": "utf-16-le"},
+                {"subclass_default_charset": "ascii"}]
+
+
+def make_response(cfg):
+    """A Response in the configuration `cfg` (the statement quantifies over configurations: set_cookie must not depend
+    on the response's charset / content type / subclass defaults)."""
+    from webob import Response
+    if not cfg:
+        return Response()
+    if "subclass_default_charset" in cfg:
+        class Sub(Response):
+            default_charset = cfg["subclass_default_charset"]
+        return Sub()
+    kw = {}
+    if "content_type" in cfg:
+        kw["content_type"] = cfg["content_type"]
+    if "charset" in cfg:
+        kw["charset"] = cfg["charset"]
+    resp = Response(**kw)
+    if "set_charset" in cfg:
+        resp.charset = cfg["set_charset"]
+    return resp
+
+
 def call_api(case):
     """Run make_cookie / Response.set_cookie on a JSON case.  Returns (line or Err, t0, t1)."""
     name = "".join(chr(c) for c in case["name"])
+    if case.get("name_bytes") and all(c < 128 for c in case["name"]):
+        name = name.encode("ascii")
     kw = dict(max_age=dec_max_age(case.get("max_age")), path=dec_attr(case.get("path")),
               domain=dec_attr(case.get("domain")), secure=case.get("secure", False),
               httponly=case.get("httponly", False), comment=dec_attr(case.get("comment")),
@@ -302,11 +333,13 @@ def call_api(case):
     with Validation(case.get("validate", True)), warnings.catch_warnings():
         warnings.simplefilter("ignore")
         t0 = datetime.datetime.utcnow().replace(microsecond=0)
-        if case.get("api") == "set_cookie":
-            from webob import Response
-            resp = Response()
+        if case.get("api") in ("set_cookie", "delete_cookie"):
+            resp = make_response(case.get("resp"))
             before = list(resp.headerlist)
-            r = catch(resp.set_cookie, name, value, **kw)
+            if case.get("api") == "delete_cookie":
+                r = catch(resp.delete_cookie, name, path=kw["path"], domain=kw["domain"])
+            else:
+                r = catch(resp.set_cookie, name, value, **kw)
             if not isinstance(r, Err):
                 added = resp.headerlist[len(before):]
                 if resp.headerlist[:len(before)] != before or len(added) != 1 or added[0][0] != "Set-Cookie":
@@ -425,6 +458,8 @@ def oracle(case):
     name = "".join(chr(c) for c in case["name"])
     value = dec_value(case.get("value"))
     api = case.get("api", "make_cookie")
+    if api == "delete_cookie":
+        value = None
     validate = case.get("validate", True)
     line, t0, t1 = call_api(case)
 
@@ -701,6 +736,9 @@ def r_case(rng, api=None, malformed=False):
         if case["api"] == "make_cookie" and rng.random() < 0.7:
             t = "".join(c for c in t if ord(c) < 128)
         case["value"] = enc_value(t)
+    if case["api"] == "set_cookie" and rng.random() < 0.5:
+        case["resp"] = rng.choice(RESP_CONFIGS)
+        case["name_bytes"] = rng.random() < 0.3
     case["max_age"] = r_max_age(rng)
     case["path"] = enc_value(b"/") if rng.random() < 0.3 else r_attr(rng)
     case["domain"] = r_attr(rng) if rng.random() < 0.5 else None
@@ -860,8 +898,36 @@ def attr_case(attr, v):
     return {"api": "make_cookie", "name": [110], "value": enc_value(b"v"), "path": None, attr: enc_value(v), "validate": True}
 
 
+# every implementation object coq/Model/C07_CookieCodec.v mirrors by hand
+MODELLED = [
+    "webob.cookies:_value_quote", "webob.cookies:_path_quote", "webob.cookies:_valid_cookie_name",
+    "webob.cookies:serialize_max_age", "webob.cookies:serialize_samesite", "webob.cookies:cookie_property",
+    "webob.cookies:Morsel.__init__", "webob.cookies:Morsel.__setitem__", "webob.cookies:Morsel.serialize",
+    "webob.cookies:make_cookie", "webob.response:Response.set_cookie",
+    "webob.cookies:_rx_cookie", "webob.cookies:_rx_unquote", "webob.cookies:_unquote", "webob.cookies:_ch_unquote",
+    "webob.cookies:_parse_cookie", "webob.cookies:parse_cookie", "webob.cookies:Cookie.load", "webob.cookies:Cookie.add",
+    "webob.cookies:RequestCookies._cache", "webob.util:bytes_", "webob.util:text_",
+]
+# objects gen() reads / translates into coq/Gen/C07_tables.v on every run
+REGENERATED = [
+    "webob.cookies:_allowed_cookie_bytes", "webob.cookies:_valid_token_bytes", "webob.cookies:_escape_map",
+    "webob.cookies:_path_quote", "webob.cookies:_rx_cookie", "webob.cookies:_rx_unquote", "webob.cookies:_ch_unquote_map",
+    "webob.cookies:_c_keys", "webob.cookies:_c_valkeys", "webob.cookies:_c_renames", "webob.cookies:serialize_samesite",
+]
+# exercised by the oracle only (no Gallina counterpart; the rendered date is an abstract input of the model)
+ORACLE_ONLY = [
+    "webob.cookies:serialize_cookie_date", "webob.cookies:weekdays", "webob.cookies:months", "webob.cookies:__warn_or_raise",
+    "webob.cookies:Cookie.serialize", "webob.cookies:Cookie.values", "webob.cookies:RequestCookies.items",
+    "webob.cookies:RequestCookies.keys", "webob.cookies:RequestCookies.get", "webob.cookies:RequestCookies.__contains__",
+    "webob.cookies:RequestCookies.__len__", "webob.request:BaseRequest.cookies", "webob.response:Response.headerlist",
+]
+
+
 def run(ctx):
     warnings.simplefilter("ignore")
+    ctx.modelled(MODELLED)
+    ctx.extra["regenerated_from_source"] = REGENERATED
+    ctx.extra["oracle_only"] = ORACLE_ONLY
     problems = gen(ctx)
     for p in problems:
         ctx.broken.append(p)
@@ -1091,6 +1157,23 @@ def run_oracle(ctx):
     for i in range(ctx.scale(3000, 60000)):
         t.check({"api": "set_cookie", "name": [110], "value": enc_value(r_text(rng, 8)), "validate": True})
     t.done()
+    # (5b) Response CONFIGURATIONS x texts: charset utf-8 / latin-1 / utf-16 / None, set later, subclass defaults; the
+    #      line must carry the utf-8 octets and request.cookies must read the original text, whatever the response is
+    t = Tally(ctx, "response-configs")
+    texts = ["caf\u00e9", "\u00c3\u00a9", "\u00e9", "\u20ac", "\U0001f600", "abc", "a b", "na\u00efve;x", "\u00ff", "\u0080", "",
+             "\u00c2\u00a0", "\u0416", "x[y]\u00e9", "\u00e2\u201a\u00ac"]
+    for cfg in RESP_CONFIGS:
+        for txt in texts + [r_text(rng, 6) for _ in range(ctx.scale(6, 60))]:
+            for nb in (False, True):
+                t.check({"api": "set_cookie", "resp": cfg, "name": [115, 105, 100], "name_bytes": nb, "value": enc_value(txt),
+                         "validate": True})
+        for val in (b"\xe9", b"caf\xc3\xa9", b"plain"):
+            t.check({"api": "set_cookie", "resp": cfg, "name": [110], "value": enc_value(val), "validate": True,
+                     "max_age": 5, "secure": True, "samesite": enc_value(b"None")})
+        t.check({"api": "delete_cookie", "resp": cfg, "name": [110], "value": None, "path": enc_value(b"/"), "validate": True})
+        t.check({"api": "delete_cookie", "resp": cfg, "name": [110], "value": None, "path": enc_value(b"/a b"),
+                 "domain": enc_value(b"e.example"), "validate": True})
+    t.done()
     # (6) longer byte values
     t = Tally(ctx, "values-longer")
     for i in range(ctx.scale(4000, 80000)):
@@ -1142,12 +1225,11 @@ def hist_response(case):
     """ONE Response receives all the set_cookie calls: after each call its Set-Cookie headers must be exactly the lines
     fresh Responses give for the calls so far (earlier lines untouched, one line appended per successful call, nothing
     appended by a call that raises), the arguments must not be mutated."""
-    from webob import Response
-    resp = Response()
+    resp = make_response(case.get("resp"))
     base = list(resp.headerlist)
     want = []
     for i, c in enumerate(case["calls"]):
-        c = dict(c, api="set_cookie")
+        c = dict(c, api="set_cookie", resp=None)     # the reference is a default Response: the configuration must not matter
         fresh, _, _ = call_api(c)
         name = "".join(chr(x) for x in c["name"])
         value = dec_value(c.get("value"))
@@ -1310,7 +1392,12 @@ def r_history(rng, kind):
                 calls.append(c2)
                 if rng.random() < 0.5:
                     calls.append(dict(c))
-        return {"kind": kind, "calls": calls}
+        h = {"kind": kind, "calls": calls}
+        if kind == "response":
+            h["resp"] = rng.choice(RESP_CONFIGS)
+            for c in calls:
+                c.pop("resp", None)
+        return h
     if kind == "jar":
         hs = []
         for _ in range(n):
